@@ -157,6 +157,26 @@ def check_state(kind, args, evs, cap, X, d, sub, stats):
         except Exception as e:
             fail(f"save/load with a pathlib.Path raised {type(e).__name__}: {e}", {"what": "path"})
         restore(X, cap, SKIP)
+        # names without the suffix and with a dot in them: save() appends ".npz" (numpy), so
+        # "ck.1" and "ck.2" are two files and "ck.1.npz" holds the first sketch
+        try:
+            n1, n2 = os.path.join(d, "ck.1"), os.path.join(d, "ck.2")
+            for f_ in (n1 + ".npz", n2 + ".npz"):
+                if os.path.exists(f_):
+                    os.remove(f_)
+            X.save(n1)
+            other = SK.make(kind, *args)
+            other.add(b"another-sketch", 3)
+            other.save(n2)
+            Ld = loaders(kind)[0][1](n1 + ".npz")
+            stats["loads"] += 1
+            if observe(Ld, kind, uni) != ref:
+                fail("save('ck.1'); save(other, 'ck.2'); load('ck.1.npz') is not the first sketch",
+                     {"what": "dotted"})
+            del Ld, other
+        except Exception as e:
+            fail(f"save('ck.1') / load('ck.1.npz') raised {type(e).__name__}: {e}", {"what": "dotted"})
+        restore(X, cap, SKIP)
     for lname, loader in loaders(kind):
         for shared in (False, True):
             stats["loads"] += 1
@@ -222,13 +242,19 @@ def check_state(kind, args, evs, cap, X, d, sub, stats):
                     do(X, ev)
                     do(L, ev)
                     p2 = os.path.join(d, "s2.npz")
-                    L.save(p2)
-                    L2 = loader(p2)
                     stats["loads"] += 1
-                    if observe(L2, kind, uni) != observe(X, kind, uni):
-                        fail(f"chain save->load->{ev}->save->load differs from the original path",
+                    try:
+                        L.save(p2)
+                        L2 = loader(p2)
+                    except Exception as e:
+                        fail(f"chain save->load->{ev}->save->load raised {type(e).__name__}: {e}",
                              {"loader": lname, "shared": False, "what": "chain", "event": list(ev)})
-                    del L2
+                        L2 = None
+                    if L2 is not None:
+                        if observe(L2, kind, uni) != observe(X, kind, uni):
+                            fail(f"chain save->load->{ev}->save->load differs from the original path",
+                                 {"loader": lname, "shared": False, "what": "chain", "event": list(ev)})
+                        del L2
             del L
     stats["states"] += 1
 
